@@ -169,8 +169,8 @@ func main() {
 		}
 	}
 	b2 = append(b2, newBatches(e, "corpus", corpus, 1<<30)...)
-	b2 = append(b2, newBatches(e, "seeded", rest, e.Pick(250, 500))...)
-	all2, inc2 := runBatches(b2, e.Pick(4, 5), regTmpl, mainGo)
+	b2 = append(b2, newBatches(e, "seeded", rest, e.Pick(70, 250))...)
+	all2, inc2 := runBatches(b2, e.Pick(6, 4), regTmpl, mainGo)
 	for _, s := range inc2 {
 		e.Inconclusive(s)
 	}
@@ -181,7 +181,7 @@ func main() {
 	e.Extra("rejected_with_compile_error_by_node", st.emitRej)
 	e.Extra("interpreted_run_ended_normally", st.interpOK)
 	e.Extra("interpreted_run_ended_with_error", st.interpErr)
-	e.Extra("corpus_files_skipped_as_unstable", st.unstable)
+	e.Extra("cases_skipped_as_unstable", st.unstable)
 	e.Extra("skipped_by_quarantined_feature", skippedQ)
 	e.Extra("batches", batchInfo)
 	e.Extra("catalogue_units_not_accepted_by_compile", unitRej)
